@@ -101,6 +101,42 @@ class _Renamed:
         return lambda **kw: f(**kw, **extra)
 
 
+# --------------------------------------------------------------------------- more exception classes for interpreter programs
+class InterpRpcError(RpcError):
+    """An RpcError subclass raised by an IMPLEMENTATION (e.g. re-raised from its own upstream RPC)."""
+
+    def __init__(self, message: str) -> None:
+        super().__init__("InterpFailure", message, "")
+
+
+# The classes the serve loop / the client treat specially when THEY see them on the transport: an implementation whose own
+# backend I/O fails raises exactly these.  Added to interp's table (additive; keys = type(exc).__name__ as sent on the wire).
+EXTRA_EXC: dict[str, type[BaseException]] = {
+    "BrokenPipeError": BrokenPipeError,
+    "ConnectionResetError": ConnectionResetError,
+    "ConnectionAbortedError": ConnectionAbortedError,
+    "OSError": OSError,
+    "TimeoutError": TimeoutError,
+    "EOFError": EOFError,
+    "ArrowInvalid": pa.ArrowInvalid,
+    "StopIteration": StopIteration,
+    "InterpRpcError": InterpRpcError,
+}
+for _k, _v in EXTRA_EXC.items():
+    I.EXC_TABLE.setdefault(_k, _v)
+
+
+def _on_cancel(self: Any, ctx: Any) -> None:
+    """interp's on_cancel + an optional program key ``cancel_raise: [class, message]`` (hook failure)."""
+    I.CALLS.append(("cancel", self.pid, self.i))
+    exc = I.lookup(self.pid).get("cancel_raise")
+    if exc:
+        raise I.make_exc(*exc)
+
+
+I.ProdState.on_cancel = _on_cancel  # type: ignore[method-assign]
+I.ExchState.on_cancel = _on_cancel  # type: ignore[method-assign]
+
 VIAS = ("main", "unknown", "badparam", "badversion")
 REJECT_TYPE = {"unknown": "MethodNotImplementedError", "badparam": "TypeError", "badversion": "ProtocolVersionError"}
 
